@@ -53,7 +53,11 @@ def parse_screen(rows, draw, fg=None):
         for r in rows[7:7 + len(draw["planes"])]:
             ev["cells"].append([r[off + a:off + b].strip() for a, b in COLS])
         if len(draw["planes"]) > draw["h"] - 9:
-            ev["cells_valid"] = 0            # table does not fit: rows scroll
+            # the table does not fit: what is shown is a window of the rows (judged as such: cells_valid = 2)
+            vis = draw["h"] - 9
+            ev["cells"] = [r[off + a:off + b].strip() for r in rows[7:7 + vis] for a, b in [(0, 0)]][:0]
+            ev["cells"] = [[r[off + a:off + b].strip() for a, b in COLS] for r in rows[7:7 + vis]]
+            ev["cells_valid"] = 2 if vis > 0 else 0
     ev["stats_valid"], ev["stats_total"], ev["stats_most"] = 0, 0, 0
     if draw["tab"] == 3:
         tot = most = None
@@ -194,6 +198,42 @@ def session(bindir, rng, tag, tier):
         rd.cleanup()
 
 
+def crowded_session(bindir, rng, tag):
+    """more aircraft than the Airplanes table has rows: the table shows a window around the selection"""
+    rx = (52.0, 4.0)
+    size = (24, 120)
+    srv = apps.FeedServer([{"segments": [], "interactive": True}])
+    srv.start()
+    rd = apps.Radar(bindir, srv.port, ["--lat", str(rx[0]), "--long", str(rx[1])], size=size)
+    try:
+        rd.wait_frames(2, 6)
+        marks = []
+        for i in range(rng.randrange(18, 27)):
+            srv.push(aircraft(rng, rx, i % 4, with_position=rng.random() < 0.6))
+            rd.wait_frames(rd.frame_count() + 3, 3)
+        rd.wait_frames(rd.frame_count() + 25, 6)
+        rd.send(apps.KEYS["F3"]); rd.wait_frames(rd.frame_count() + 2, 3); marks.append(rd.frame_count())
+        for k in ["Down"] * rng.randrange(14, 30) + ["Up"] * rng.randrange(1, 6) + ["Down"] * 3:
+            rd.send(apps.KEYS[k]); rd.wait_frames(rd.frame_count() + 2, 3); marks.append(rd.frame_count())
+        rd.send(apps.KEYS["q"]); rd.wait_exit(4)
+        snaps, snaps_fg = vt.snapshots_with_colour(rd.out, size[0], size[1])
+        out = [{"ev": "session_start", "tag": tag, "expiry": 0}]
+        judged = set(marks)
+        for e in apps.hook_events(rd):
+            if e.get("ev") == "action":
+                out.append({"ev": "action", "added": e["added"], "keys": e["keys"]})
+            elif e.get("ev") == "draw" and e["frame"] in judged and e["frame"] in snaps:
+                d = e
+                ev = {"ev": "screen", "frame": d["frame"], "tab": d["tab"], "sel": d["sel"], "w": d["w"], "h": d["h"], "scale9": d["scale9"],
+                      "lat": d["lat"], "long": d["long"], "clat": d["clat"], "clong": d["clong"], "planes": d["planes"]}
+                ev.update(parse_screen(snaps[d["frame"]], d, snaps_fg.get(d["frame"])))
+                out.append(ev)
+        return out
+    finally:
+        srv.stop()
+        rd.cleanup()
+
+
 def run(prop, tier, seed, rep):
     rng = random.Random(seed * 1000003 + 18)
     res = core.run_mc("MC_RadarUI", workers=8, timeout=3000, cache=False,
@@ -206,6 +246,8 @@ def run(prop, tier, seed, rep):
     seeds = [rng.getrandbits(32) for _ in range(n)]
     with cf.ThreadPoolExecutor(max_workers=12) as ex:
         results = list(ex.map(lambda i: session(bindir, random.Random(seeds[i]), f"s{i}", tier), range(n)))
+    for i in range(1 if tier == "quick" else 8):
+        results.append(crowded_session(bindir, random.Random(seeds[i] ^ 0x5EED), f"crowd{i}"))
     events = [e for r in results for e in r]
     verdicts, st, tr = core.validate_events("Trace_Screen", events, prop, shards=8, boundary=lambda e: e["ev"] == "session_start")
     rep.add_trace_stats(st, tr, n)
@@ -230,6 +272,7 @@ def run(prop, tier, seed, rep):
                       "coverage_folds_checked": sum(1 for e in events if e["ev"] == "coverage"),
                       "coverage_fold_drift": sum(1 for d in core.LAST_INFOS if d["what"] == "coverage"),
                       "table_screens_with_cells": sum(1 for e in scr if e["cells_valid"] == 1),
+                      "scrolled_table_screens": sum(1 for e in scr if e["cells_valid"] == 2),
                       "table_rows_judged": sum(len(e["cells"]) for e in scr if e["cells_valid"] == 1),
                       "stats_screens": sum(1 for e in scr if e["stats_valid"] == 1),
                       "sessions_with_expiry": sum(1 for e in events if e["ev"] == "session_start" and e.get("expiry")),
